@@ -127,10 +127,13 @@ func (vars *Vars) Merge(other *Vars, include *Include) {
 	defer other.mutex.RUnlock()
 	other.mutex.RLock()
 	for pair := other.om.Front(); pair != nil; pair = pair.Next() {
+		// Work on a copy: other may be merged again through another include
+		// (the same Taskfile included twice), which must not see this one's dir
+		value := pair.Value
 		if include != nil && include.AdvancedImport {
-			pair.Value.Dir = include.Dir
+			value.Dir = include.Dir
 		}
-		vars.om.Set(pair.Key, pair.Value)
+		vars.om.Set(pair.Key, value)
 	}
 }
 
